@@ -1,0 +1,57 @@
+//! Verification hooks, compiled only with the `verif_hooks` feature.
+//!
+//! These are observation points for the model-checking harness kept outside
+//! this repository. With the feature off nothing here exists and no call site
+//! is compiled.
+use std::cell::RefCell;
+
+/// Counters of `RankCalc::calc` queue pops on the current thread.
+#[derive(Clone, Debug, Default)]
+pub struct RankPops {
+    /// Number of pops per function index since the last reset.
+    pub per_fn: Vec<u64>,
+    /// Total number of pops since the last reset.
+    pub total: u64,
+    /// When non-zero, `rank_pop` unwinds with [`RankPopLimitExceeded`] once
+    /// `total` exceeds this value.
+    pub limit: u64,
+}
+
+/// Panic payload used when the pop limit set by the harness is exceeded.
+#[derive(Clone, Copy, Debug)]
+pub struct RankPopLimitExceeded;
+
+thread_local! {
+    static RANK_POPS: RefCell<RankPops> = RefCell::new(RankPops::default());
+}
+
+/// Resets the counters of the current thread and sets the pop limit (0 = none).
+pub fn rank_pops_reset(limit: u64) {
+    RANK_POPS.with(|c| {
+        let mut c = c.borrow_mut();
+        c.per_fn.clear();
+        c.total = 0;
+        c.limit = limit;
+    });
+}
+
+/// Returns a copy of the counters of the current thread.
+pub fn rank_pops() -> RankPops {
+    RANK_POPS.with(|c| c.borrow().clone())
+}
+
+/// Called once per queue pop in `RankCalc::calc`.
+pub(crate) fn rank_pop(fn_index: usize) {
+    let exceeded = RANK_POPS.with(|c| {
+        let mut c = c.borrow_mut();
+        if c.per_fn.len() <= fn_index {
+            c.per_fn.resize(fn_index + 1, 0);
+        }
+        c.per_fn[fn_index] += 1;
+        c.total += 1;
+        c.limit != 0 && c.total > c.limit
+    });
+    if exceeded {
+        std::panic::panic_any(RankPopLimitExceeded);
+    }
+}
